@@ -106,7 +106,7 @@ def run(ctx, out):
                 "both drivers, workers 1/2/4/16, random thread holds (several seeds), copy_file_range available or failing with "
                 "ENOSYS/EXDEV (user-space fallback), extended attributes refused by the destination (ENOSPC/EPERM/ENOTSUP/E2BIG/EACCES: "
                 "best effort, only warned about), ONE flush of the run refused (EINVAL/ENOSYS/EOPNOTSUPP/EIO: the others must still happen), --fsync on (oracle: fsync entered after the last data/size call of the "
-                "file and returned before exit) and off (oracle: no fsync); non-trivial = --fsync run with >= 2 workers; "
+                "file and returned before exit; also when the run goes onto the result of the previous one) and off (oracle: no fsync); non-trivial = --fsync run with >= 2 workers; "
                 "distinct = (case, driver, workers, seed, fsync, cfr)")
     ncases = 3 if quick else 20
     seeds = [1, 2, 3, 4] if quick else list(range(1, 13))
@@ -129,8 +129,18 @@ def run(ctx, out):
             runs = keep + rest[:16]
         for (driver, w, sd, fs) in runs:
             dst = os.path.join(d, "dst")
-            shutil.rmtree(dst, ignore_errors=True)
-            argv = [ctx.bins["xcp"], "-r", "--driver", driver, "-w", str(w), "--block-size", str(bs)] + (["--fsync"] if fs else []) + ["src", "dst"]
+            # every third flushed run goes ONTO THE RESULT of the previous run (every destination file exists already and is
+            # truncated and rewritten): the flush is owed to every file written, new or not
+            repeat = fs and os.path.isdir(dst) and rng.random() < 0.35
+            out.count("onto_previous_result" if repeat else "fresh_destination")
+            if not repeat:
+                shutil.rmtree(dst, ignore_errors=True)
+            else:
+                try:
+                    os.unlink(os.path.join(dst, "lnk"))      # re-creating an existing symbolic link fails by design
+                except OSError:
+                    pass
+            argv = [ctx.bins["xcp"], "-r", "-T", "--driver", driver, "-w", str(w), "--block-size", str(bs)] + (["--fsync"] if fs else []) + ["src", "dst"]
             kw = {}
             cfr = None
             if sd is not None:
@@ -154,7 +164,7 @@ def run(ctx, out):
             out.case((k, driver, w, sd, fs, cfr), nontrivial=(fs and w >= 2))
             out.count("driver_" + driver)
             out.count("fsync_on" if fs else "fsync_off")
-            rep = dict(case=k, argv=argv[1:], cfr_errno=cfr, seed=kw.get("seed"), files=files)
+            rep = dict(case=k, argv=argv[1:], cfr_errno=cfr, seed=kw.get("seed"), files=files, onto_previous_result=repeat)
             fsync_refused = any(ru[3] in ("fsync", "fdatasync") for ru in kw.get("rules", []))
             rep["rules"] = kw.get("rules", [])
             if r.exit != 0:
